@@ -210,6 +210,29 @@ def check(ctx: Ctx):
                 okn = src_ok and all(norm(c.func) == f"self.directory_computation.notify_{k}_{suffix}" and norm(c.args[0]) == norm(lp.target) for c in note)
                 ctx.check(okn, "R-PROTO.d", f"Directory.{fname}: notify_{k}_{suffix} to {table}", df, lp,
                           f"{fname} must notify exactly the subscribers of {table} (and of all agents) with notify_{k}_{suffix}")
+            # coverage: every subscriber table of the kind is notified (by-name entry; for agents also the all-agents set); sources may be
+            # separate loops or a set union, never a choice between them
+            srcs = []
+            choice = None
+            for lp in loops:
+                e = lp.iter
+                if isinstance(e, ast.Name):
+                    d_ = [n for n in walk_no_nested(df.node) if isinstance(n, ast.Assign) and norm(n.targets[0]) == e.id]
+                    e = d_[0].value if len(d_) == 1 else e
+                stack = [e]
+                while stack:
+                    x = stack.pop()
+                    if isinstance(x, ast.BinOp) and isinstance(x.op, ast.BitOr):
+                        stack += [x.left, x.right]
+                    elif isinstance(x, ast.Call) and isinstance(x.func, ast.Attribute) and x.func.attr == "union":
+                        stack += [x.func.value] + list(x.args)
+                    elif isinstance(x, (ast.BoolOp, ast.IfExp)):
+                        choice = x
+                    else:
+                        srcs.append(norm(x))
+            need = [f"self.{table}[{df.params[1]}]"] + (["self._subscription_all_agents"] if k == "agent" else [])
+            ctx.check(choice is None and all(n_ in srcs for n_ in need), "R-PROTO.d", f"Directory.{fname}: all of {need} are notified", df, (choice if choice is not None else (loops or [df.node])[0]),
+                      "subscribers by name and subscribers to all agents are both interested: `a or b` / a conditional picks one set and leaves the other without the update")
             mirror = [c for c in walk_no_nested(df.node) if isinstance(c, ast.Call) and norm(c.func) == f"self.discovery.{fname}"]
             okm = len(mirror) == 1
             if okm and reg == "register":
@@ -442,6 +465,10 @@ def _is_append_receiver(func_node, sub):
 
 _D = "pydcop/infrastructure/discovery.py"
 VARIANTS = [
+    ("register_agent_notifies_one_set_or_the_other", _D, "        for interested in self._subscription_agents[agent]:\n            self.directory_computation.notify_agent_registered(\n                interested, agent, address)\n        for interested in self._subscription_all_agents:\n",
+     "        interested_agents = self._subscription_agents[agent] or \\\n            self._subscription_all_agents\n        for interested in interested_agents:\n", "break", "R-PROTO.d"),
+    ("n_register_agent_notifies_union", _D, "        for interested in self._subscription_agents[agent]:\n            self.directory_computation.notify_agent_registered(\n                interested, agent, address)\n        for interested in self._subscription_all_agents:\n",
+     "        interested_agents = self._subscription_agents[agent] | \\\n            self._subscription_all_agents\n        for interested in interested_agents:\n", "neutral"),
     ("dir_unregister_pops_subscribers", _D, "        interested_agents = self._subscription_agents[agent] | \\\n", "        interested_agents = self._subscription_agents.pop(agent, set()) | \\\n", "break", "R-KEEP"),
     ("dir_unsubscribe_clears_entry", _D, "            self._subscription_computations[computation].remove(subscriber)", "            self._subscription_computations[computation].clear()", "break", "R-KEEP"),
     ("partial_unsubscribe_wipes_view", _D, "                        SubscribeReplicaMessage(replica, False))\n                    # remove all knowledge of current replicas as we are not\n                    #  subscribed any more\n                    self._replicas_data.pop(replica, None)\n",
